@@ -14,7 +14,7 @@ RULE = ("seeded gen_coords runs with dense, tiny, cubic, non-cubic and density-d
 ASSUMPTIONS = wa.ASSUMPTIONS + ["where twice the step length reaches the smallest box edge the literal minimum-image reading "
                                 "is undefined; there the oracle demands that some periodic image of the displacement has the step length"]
 REAL_VS_STUB = wa.REAL_VS_STUB
-PROBES = wa.PROBES + ["large_system_second_tree", "earlier_call_same_topology_paths", "size_ratio_above_4", "bending_constants", "ring_soup", "placed_interacting_across_boundary", "step_longer_than_half_box", "user_grid"]
+PROBES = wa.PROBES + ["large_system_second_tree", "earlier_call_same_topology_paths", "size_ratio_above_4", "bending_constants", "ring_soup", "placed_interacting_across_boundary", "step_longer_than_half_box", "user_grid", "same_name_other_size_in_molecule", "force_limit_of_attractive_order"]
 PROFILE = {"box_modes": ["dense", "dense", "tiny", "cubic", "noncubic", "density"], "p_gs": 0.5, "p_sf": 0.5, "p_mf": 0.5,
            "faults": ["step", "start", "overlap"], "n_entries": (1, 4), "max_molecules": 12,
            "shapes": ["single", "linear", "linear", "star", "comb", "tree", "ring"]}
@@ -64,6 +64,11 @@ def gen_job(verif_seed, tier, index):
         job["opts"].pop("density", None)
         job["opts"]["box"] = [edge, edge, edge]
         job["size_ratio"] = True
+    if not job.get("bld_volumes") and g.random() < 0.12:
+        jobgen.add_bigger_variant(job, g)       # same residue name, different size inside one molecule
+    if g.random() < 0.1:
+        job["opts"]["max_force"] = g.choice([3.0, 6.0, 12.0, 30.0])      # limit of the order of the attractive forces
+        job["low_force_limit"] = True
     if g.random() < 0.25:
         jobgen.add_user_grid(job, g)
     if g.random() < 0.2:
@@ -87,6 +92,10 @@ def _tag(job, res):
         res["probes"]["ring_soup"] = 1
     if job.get("bld_bending"):
         res["probes"]["bending_constants"] = 1
+    if job.get("bigger_variant"):
+        res["probes"]["same_name_other_size_in_molecule"] = 1
+    if job.get("low_force_limit"):
+        res["probes"]["force_limit_of_attractive_order"] = 1
     if job.get("size_ratio"):
         res["probes"]["size_ratio_above_4"] = 1
     return bool(res["probes"].get("placed_with_neighbours_in_cutoff"))
